@@ -491,6 +491,47 @@ theorem tree_car (tol : Rat) (htol : tol * tol ≤ 1 / 4) (n i j : Nat) (hi : i 
   rw [den_cons, den_nil, den_cons, den_nil, add_zero, add_zero, one_mul, one_mul]
   exact spec_car i j s s'
 
+/-- the tree variant maps encoded states to encoded states only -/
+theorem tree_term_support (tol : Rat) (htol : tol * tol ≤ 1 / 4) (n : Nat) (t : List (Nat × Nat))
+    (ht : ∀ f ∈ t, f.1 < n ∧ f.2 ≤ 1) (c : GQ) (s x : Nat) (hx : ∀ s', Spec.C05.enc .tree n s' ≠ x) :
+    GV.coeff (applyOp .qubit (bkTreeTerm tol (mkTree n) n t c) [Spec.C05.enc .tree n s]) [x] = 0 := by
+  change den .qubit _ _ _ = 0
+  rw [bkTreeTerm_den tol htol n t ht]
+  cases actFTerm t s with
+  | none => rfl
+  | some km => obtain ⟨k, s''⟩ := km; simp [hx s'']
+
+/-- `{a_i, a_j} = 0` for the tree variant -/
+theorem tree_car_ann (tol : Rat) (htol : tol * tol ≤ 1 / 4) (n i j : Nat) (hi : i < n) (hj : j < n) (s s' : Nat) :
+    GV.coeff (applyOp .qubit (bkTreeTerm tol (mkTree n) n [(i, 0), (j, 0)] 1) [Spec.C05.enc .tree n s])
+        [Spec.C05.enc .tree n s']
+    + GV.coeff (applyOp .qubit (bkTreeTerm tol (mkTree n) n [(j, 0), (i, 0)] 1) [Spec.C05.enc .tree n s])
+        [Spec.C05.enc .tree n s']
+      = 0 := by
+  rw [tree_term_exact tol htol n _ (by intro f hf; simp at hf; rcases hf with rfl | rfl <;> simp <;> omega) 1 s s',
+    tree_term_exact tol htol n _ (by intro f hf; simp at hf; rcases hf with rfl | rfl <;> simp <;> omega) 1 s s']
+  change den .fermion _ _ _ + den .fermion _ _ _ = _
+  rw [den_cons, den_nil, den_cons, den_nil, add_zero, add_zero, one_mul, one_mul]
+  exact spec_car_ann i j s s'
+
+/-- number operators are diagonal for the tree variant -/
+theorem tree_number_diagonal (tol : Rat) (htol : tol * tol ≤ 1 / 4) (n j : Nat) (hj : j < n) (s s' : Nat) :
+    GV.coeff (applyOp .qubit (bkTreeTerm tol (mkTree n) n [(j, 1), (j, 0)] 1) [Spec.C05.enc .tree n s])
+        [Spec.C05.enc .tree n s']
+      = if s.testBit j then (if s = s' then 1 else 0) else 0 := by
+  rw [tree_term_exact tol htol n _ (by intro f hf; simp at hf; rcases hf with rfl | rfl <;> simp <;> omega) 1 s s']
+  change den .fermion _ _ _ = _
+  rw [den_cons, den_nil, add_zero, one_mul, diag_fermion]
+
+/-- **`bravyi_kitaev` and `bravyi_kitaev_tree` are the same operator up to the relabelling of basis states**:
+`⟨enc_tree s'| bk_tree(A) |enc_tree s⟩ = ⟨enc_bk s'| bk(A) |enc_bk s⟩` for every FermionOperator, both runs exact -/
+theorem tree_equiv_bk (tol : Rat) (htol : tol * tol ≤ 1 / 4) (n : Nat) (A : Model.Op)
+    (hA : ∀ tc ∈ A, ∀ f ∈ tc.1, f.1 < n ∧ f.2 ≤ 1) (hok : bkFermionOk tol n A = true)
+    (hok' : bkTreeFermionOk tol n A = true) (s s' : Nat) :
+    GV.coeff (applyOp .qubit (bkTreeFermion tol n A) [Spec.C05.enc .tree n s]) [Spec.C05.enc .tree n s']
+      = GV.coeff (applyOp .qubit (bkFermion tol n A) [Spec.C05.enc .bk n s]) [Spec.C05.enc .bk n s'] := by
+  rw [tree_exact tol htol n A hA hok' s s', bk_exact tol htol n A hA hok s s']
+
 /-! ### non-vacuity -/
 
 example : Generated.eqTolerance * Generated.eqTolerance ≤ 1 / 4 := by
